@@ -113,7 +113,8 @@ Judge_parse(e) ==
        NetMachinery(r)
        \cup (IF InputNames(r) = Range(p.inputs) THEN {} ELSE {"inputs_differ_from_declaration"})
        \cup (IF OutputNames(r) = Range(p.outputs) THEN {} ELSE {"outputs_differ_from_declaration"})
-       \cup (IF ~r.acyc \/ NFree(r) > MaxBits THEN {"MACHINERY:not_evaluable"} ELSE ParseClauses(p, r))
+       \cup (IF Cardinality(FreeNets(p)) > MaxBits THEN {"MACHINERY:program_too_wide"}
+             ELSE IF ~r.acyc \/ NFree(r) > MaxBits THEN {"result_cyclic_or_unexpected_free_signals"} ELSE ParseClauses(p, r))
 
 (* ---- two circuits that must agree: round trips (C03, C15 writer) and fast-vs-full parser (C14) ----
    same name / inputs / outputs / blackbox instances with the same net on every pin; Kleene-equal function at every
